@@ -270,7 +270,7 @@ def r4_rewrite_impls(ctx, F):
                                                              'HashSet::iter', 'slice::iter', 'Vec::iter',
                                                              'BTreeMap::iter', 'VecDeque::iter', 'Option::as_ref',
                                                              'DenseNatMap::iter', 'Iterator::enumerate',
-                                                             'DenseNatMap::values'))
+                                                             'DenseNatMap::values', 'Network::iter_all'))
                             mark(x, src)
         for var in adt['variants']:
             for f in var['fields']:
